@@ -380,6 +380,24 @@ def decide(ctx, crate, results, keyfn, describe):
         if r["ok"]:
             continue
         if r.get("timeout"):
+            # no verdict from the verifier: a failing input found natively on the real expansion (or a run that overflows its stack: unbounded
+            # recursion is what makes CBMC run out of its limits) is still a refutation; otherwise the obligation stays undecided
+            pname, hname = h.split("::proofs::")
+            prog = byname[pname]
+            try:
+                out = crate.native(pname, hname, [], timeout=300)
+            except Exception as e:
+                out = "native run did not finish: %s" % str(e)[:200]
+            m = re.search(r"(REPRODUCED|FOUND) input=\[([0-9, ]*)\] (.*)", out, re.S)
+            crashed = "overflowed its stack" in out or "stack overflow" in out
+            if m or crashed:
+                rep = {"layer": "E", "obligation": "%s::%s" % (pname, hname), "failed_checks": ["CBMC reached its limits (no verdict); refuted natively"], "program": prog.text,
+                       "harness": hname, "meta": prog.meta, "describe": describe(prog), "extra_support": crate.extra_support, "native_replay": out[-800:]}
+                if m:
+                    rep["input_bytes"] = [int(x) for x in m.group(2).split(",") if x.strip()]
+                ctx.violation(keyfn(prog, hname), "no verdict from CBMC (limits reached); on the real code: %s" % (m.group(3).strip()[:300] if m else "the native run of the harness overflows its stack (unbounded recursion): " + out[-200:].replace("\n", " ")), rep, no_input=not m)
+                n_fail += 1
+                continue
             ctx.undecided.append("harness %s: CBMC timeout/limit (no verdict)" % h)
             continue
         n_fail += 1
